@@ -11,7 +11,7 @@ from .c04 import designation_family
 
 LEVEL = 'other'
 EXPLANATION = (
-    "Static analysis. (R1) reflexivity: the two trunk nodes that `A |- A` produces (folded build_trunk: A designated and A undesignated, or A and ~A) are a closing pair of a closure rule of every logic (folded partner tables), at the trunk's world. (R2) symbol blindness: inside proof/, models/ and the logic modules no code inspects the identity of a symbol (.index/.subscript/.spec/.coords/.ident/.sort_tuple of a lexical item, or construction of a specific Constant/Atomic/Variable/Predicate) outside example-node code and the reviewed sites; a positive fixture must be flagged on every run. Monotonicity under added premises and invariance under renaming as relations between two runs are declined. (R3) substitution exact (C15.R1); (R4) freshness marks above everything on the branch for every arrival order and choice of symbols (C06.R0-R2). (R5) limit guards (C02.R7). (R6) an added premise cannot switch an expansion off: every branch-dependent skip in a rule's target producer is a validated redundancy guard, the fairness gate or a limit guard, for every rule slot of every logic.")
+    "Static analysis. (R1) reflexivity: the two trunk nodes that `A |- A` produces (folded build_trunk: A designated and A undesignated, or A and ~A) are a closing pair of a closure rule of every logic (folded partner tables), at the trunk's world. (R2) symbol blindness: inside proof/, models/ and the logic modules no code inspects the identity of a symbol (.index/.subscript/.spec/.coords/.ident/.sort_tuple of a lexical item, or construction of a specific Constant/Atomic/Variable/Predicate) outside example-node code and the reviewed sites; a positive fixture must be flagged on every run. Monotonicity under added premises and invariance under renaming as relations between two runs are declined. (R3) substitution exact (C15.R1); (R4) freshness marks above everything on the branch for every arrival order and choice of symbols (C06.R0-R2). (R5) limit guards (C02.R7). (R6) an added premise cannot switch an expansion off: every branch-dependent skip in a rule's target producer is a validated redundancy guard, the fairness gate or a limit guard, for every rule slot of every logic. (R7) no starvation behind the fairness gate (C02.R8). (R8) IdentityIndiscernability folded over branches with several worlds (C01.R9): a copy of the result at another world does not switch the rule off.")
 TRUSTED = ['CPython ast', 'sa.minieval folds of build_trunk and _find_closing_node']
 ASSUMPTIONS = ['order-only uses of symbols (max, sorted, <, next()) are permitted by the property']
 
